@@ -712,6 +712,36 @@ impl rustc_driver::Callbacks for FactsCallbacks {
                               "local" => J::Bool(did.is_local())});
         }
 
+        // evaluated associated consts of non-generic impls of every mentioned trait
+        // (e.g. RgbColor::MAX_R for the colour types of embedded-graphics-core)
+        let mut impl_consts = Vec::new();
+        for tdid in cx.traits.order.clone() {
+            let citems: Vec<DefId> = tcx
+                .associated_items(tdid)
+                .in_definition_order()
+                .filter(|it| matches!(tcx.def_kind(it.def_id), DefKind::AssocConst { .. }))
+                .map(|it| it.def_id)
+                .collect();
+            if citems.is_empty() {
+                continue;
+            }
+            for impl_did in tcx.all_impls(tdid) {
+                if tcx.generics_of(impl_did).count() != 0 {
+                    continue;
+                }
+                let self_ty = tcx.type_of(impl_did).instantiate_identity().skip_norm_wip();
+                let map = tcx.impl_item_implementor_ids(impl_did);
+                for ci in citems.iter() {
+                    if let Some(&iid) = map.get(ci) {
+                        if let Ok(ConstValue::Scalar(Scalar::Int(si))) = tcx.const_eval_poly(iid) {
+                            impl_consts.push(obj! {"trait_item" => jstr(cx.path(*ci)), "name" => jstr(tcx.item_name(*ci).to_string()),
+                                "self_ty" => cx.ty(self_ty), "val" => jnum(si.to_bits_unchecked())});
+                        }
+                    }
+                }
+            }
+        }
+
         // ADT table: everything mentioned, transitively through field types
         let mut adts_out: BTreeMap<String, J> = BTreeMap::new();
         let mut done: HashSet<DefId> = HashSet::new();
@@ -772,6 +802,7 @@ impl rustc_driver::Callbacks for FactsCallbacks {
             "bodies" => J::Arr(bodies),
             "consts" => J::Arr(consts),
             "impls" => J::Arr(impls),
+            "impl_consts" => J::Arr(impl_consts),
             "traits" => J::Arr(traits),
             "adts" => J::Arr(adts_out.into_values().collect()),
         };
